@@ -35,7 +35,10 @@ Definition valid_S (S : list block) : bool :=
   && nodupN (map b_hash S)
   && nodup_keys (map o_key (all_outs S))
   && nodup_keys (all_spends S)
-  && forallb (fun r => forallb (fun c => negb (key_eqb (fst r) (fst c)) || (snd c <? snd r)) (created_at S)) (revealed_at S).
+  && forallb (fun r => forallb (fun c => negb (key_eqb (fst r) (fst c)) || (snd c <? snd r)) (created_at S)) (revealed_at S)
+  && forallb (fun t => forallb (fun o => forallb (fun o' =>
+        negb (N.eqb (o_pool o) (o_pool o') && N.eqb (o_idx o) (o_idx o')) || (N.eqb (o_nf o) (o_nf o') && N.eqb (o_value o) (o_value o')))
+        (t_outs t)) (t_outs t)) (all_txs S).
 
 Fixpoint wf_steps (S : list block) (l : list stepc) : bool :=
   match l with
@@ -49,22 +52,32 @@ Fixpoint wf_steps (S : list block) (l : list stepc) : bool :=
       wf_steps S' l'
   end.
 
-(** all blocks ever offered to the wallet form a valid universe ([Spec.valid_universe]): a txid
-    names one transaction, an output nullifier one output of one transaction *)
-Definition out_eqb (a b : out) : bool :=
-  optN_eqb (o_owner a) (o_owner b) && N.eqb (o_pool a) (o_pool b) && N.eqb (o_value a) (o_value b) && N.eqb (o_nf a) (o_nf b).
-Definition tx_eqb (a b : tx) : bool :=
-  N.eqb (t_id a) (t_id b) && list_eqb key_eqb (t_spends a) (t_spends b) && list_eqb out_eqb (t_outs a) (t_outs b).
+(** All blocks ever offered to the wallet form a universe in the sense the MODEL needs (weaker
+    than [Spec.valid_universe], the guard of the theorems): a txid names one transaction up to
+    the nullifiers of its outputs (a Sapling output re-mined at another tree position has another
+    nullifier), within a transaction (pool, index) names one output, and an output nullifier
+    names one output position (txid, pool, index).  [strict_universe] additionally demands equal
+    nullifiers, i.e. [Spec.valid_universe]; the tag of a case records whether it holds. *)
+Definition out_eqb_mod_nf (a b : out) : bool :=
+  optN_eqb (o_owner a) (o_owner b) && N.eqb (o_pool a) (o_pool b) && N.eqb (o_value a) (o_value b) && N.eqb (o_idx a) (o_idx b).
+Definition out_eqb (a b : out) : bool := out_eqb_mod_nf a b && N.eqb (o_nf a) (o_nf b).
+Definition tx_eqb_with (oe : out -> out -> bool) (a b : tx) : bool :=
+  N.eqb (t_id a) (t_id b) && list_eqb key_eqb (t_spends a) (t_spends b) && list_eqb oe (t_outs a) (t_outs b).
 
 Definition case_blocks (l : list stepc) : list block :=
   flat_map (fun st => match st with SScan bs _ _ => bs | _ => [] end) l.
 
-Definition univ_ok (U : list block) : bool :=
+Definition univ_with (oe : out -> out -> bool) (U : list block) : bool :=
   let T := all_txs U in
   let O := flat_map (fun t => map (fun o => (t_id t, o)) (t_outs t)) T in
-  forallb (fun t => forallb (fun t' => negb (N.eqb (t_id t) (t_id t')) || tx_eqb t t') T) T
+  forallb (fun t => forallb (fun t' => negb (N.eqb (t_id t) (t_id t')) || tx_eqb_with oe t t') T) T
+  && forallb (fun t => forallb (fun o => forallb (fun o' =>
+        negb (N.eqb (o_pool o) (o_pool o') && N.eqb (o_idx o) (o_idx o')) || out_eqb o o') (t_outs t)) (t_outs t)) T
   && forallb (fun p => forallb (fun q => negb (key_eqb (o_key (snd p)) (o_key (snd q)))
-                                         || (N.eqb (fst p) (fst q) && out_eqb (snd p) (snd q))) O) O.
+                                         || (N.eqb (fst p) (fst q) && out_eqb_mod_nf (snd p) (snd q))) O) O.
+
+Definition univ_ok (U : list block) : bool := univ_with out_eqb_mod_nf U.
+Definition strict_universe (U : list block) : bool := univ_with out_eqb U.
 
 Definition wf_case (c : case) : bool :=
   match c with Hist _ steps _ => wf_steps [] steps && univ_ok (case_blocks steps) end.
